@@ -52,13 +52,13 @@ def main():
     hooks = [c.split()[0] for c in commits if c.split(' ',1)[1].startswith('verif:')]
     m = {
      "version": 1,
-     "setup_cmd": "cd /verif/harness && CARGO_NET_OFFLINE=true cargo build --offline --profile sim",
+     "setup_cmd": "cd /verif/harness && CARGO_NET_OFFLINE=true cargo build --offline --profile sim && CARGO_NET_OFFLINE=true cargo build --offline --profile simrel",
      "hooks": {
        "guard": "a10_verif",
        "enable": "RUSTFLAGS='--cfg a10_verif' (set in /verif/harness/.cargo/config.toml); the hooks are a function table (a10::verif::Hooks) installed by the simulator at start-up",
        "baseline_off_cmd": "cd /repo && cargo test --workspace --no-fail-fast --offline",
        "source_commits": hooks,
-       "add_only": True
+       "add_only": False
      },
      "engines": [{"name":"a10sim","path":"/verif/harness","serves_properties":sorted(claimed.keys()),"kind_free_text":"deterministic simulator written for this task: simulated io_uring kernel + choice tape + baton scheduler + tracking allocator + guard pages"}],
      "checks": checks,
